@@ -19,7 +19,8 @@ RULE = ("(reorder) Hypothesis draws bases of 2-3 (thorough: 2-4) generalized she
         "real symmetric operators must be symmetric, momentum-type ones Hermitian, the repulsion array eight-fold symmetric.  "
         "(orientation) the shell blocks of every two-index kernel class are computed in both orientations, and of the repulsion "
         "kernel in all eight, independently, and must be index-exchanged (conjugated for momentum-type) copies of each other - "
-        "for generated quartets (exponents 0.1-10) and for the fixed list of ill-conditioned quartets of C04.  Non-trivial: a "
+        "for generated quartets (exponents 0.1-10), for many-primitive quartets (1-10 primitives per shell, recursion work space "
+        "2^20..2^24.7, generator of C04 'heavy') and for the fixed list of ill-conditioned quartets of C04.  Non-trivial: a "
         "permutation that moves a shell across one of a different block size; an orientation pair with different l.")
 ASSUMPTIONS = ["ERI relations judged at 2e-6 of the propagated magnitude (the accuracy C04 claims bounds how well two evaluations agree)"]
 
@@ -190,6 +191,27 @@ def judge_ill(case):
     return judge_eri_orient(v, case["shells"], label=case["label"].replace(" ", "_"))
 
 
+def judge_heavy(case):
+    """Many-primitive quartets (strategy shared with C04 'heavy'): the eight orientations computed independently must agree."""
+    from vf.props import c04
+    shells = case["shells"]
+    ks = [len(s["exps"]) for s in shells]
+    w = c04.workspace([s["l"] for s in shells], ks)
+    v = Verdict(nontrivial=max(ks) >= 3, classes=["heavy", "workspace-2^%d" % int(np.log2(max(w, 1)))])
+    return judge_eri_orient(v, shells)
+
+
+def shards_heavy(tier):
+    bands = [(20, 22), (22, 23), (23, 24), (24, 24.7)]
+    n = 1 if tier == "quick" else 8
+    return [{"id": f"{a}-{b}-{i}", "lo": a, "hi": b, "n": n, "cost": 3000 * n} for a, b in bands for i in range(2)]
+
+
+def heavy_strategy(shard):
+    from vf.props import c04
+    return c04.heavy_st(shard["lo"], shard["hi"])
+
+
 def shards_orient(tier):
     k, n = (16, 2) if tier == "quick" else (48, 12)
     return [{"id": i, "n": n, "cost": 40 * n} for i in range(k)]
@@ -204,6 +226,7 @@ def shards_ill(tier):
 SUBCHECKS = [
     SubCheck("reorder", judge, shards, strategy=lambda s: case_st(s["eri"], s.get("nmax", 3))),
     SubCheck("orientation", judge_orient, shards_orient, strategy=lambda s: orient_case()),
+    SubCheck("orientation-heavy", judge_heavy, shards_heavy, strategy=heavy_strategy),
     SubCheck("orientation-illcond", judge_ill, shards_ill, cases=lambda s: ill_list()[s["lo"]:s["hi"]][::2]),
 ]
 EXHAUSTIVE = {"reorder": "every permutation of the shells of each generated basis",
